@@ -218,3 +218,4 @@ def run(chk, facts, tier):
     c07_range.check(chk, facts)
     from rules import c07_exact
     c07_exact.check(chk, facts)
+    c07_exact.check_units(chk, facts)
